@@ -176,6 +176,7 @@ def compare(case, ml, il):
 ROUTE = re.compile(r"(\w+)=(\S+)")
 WITH_TEXT = ("toml_from_str", "edit_from_str", "from_imdoc")
 WITHOUT_TEXT = ("from_docmut", "value_first", "table_first")
+SPANS_NO_TEXT = ("respanned",)      # items carry spans, the text is not available: the span must be right AND the key path rendered
 
 
 def route_fields(v):
@@ -190,7 +191,7 @@ def oracle_deerr(case, line):
     exp = f.get("exp")
     want_keys = case.meta.get("keys", "")
     bad = []
-    for r in WITH_TEXT + WITHOUT_TEXT:
+    for r in WITH_TEXT + WITHOUT_TEXT + SPANS_NO_TEXT:
         v = f.get(r)
         if v is None:
             bad.append("%s: missing" % r)
@@ -220,6 +221,14 @@ def oracle_deerr(case, line):
                     el, ec = expected_line_col(text, a)
                     if rf.get("line") != str(el) or rf.get("col") != str(ec):
                         bad.append("%s: rendered line %s column %s, expected %d/%d" % (r, rf.get("line"), rf.get("col"), el, ec))
+        elif r in SPANS_NO_TEXT:
+            if rf.get("span") != "none" and exp != "none" and rf.get("span") != exp:
+                bad.append("%s: span %s, offending value is at %s" % (r, rf.get("span"), exp))
+            # whatever the span: without the text the rendering has to locate the error by its key path
+            got = rf.get("keys")
+            got = b"" if got in (None, "none") else bytes.fromhex(got)
+            if got.decode("utf-8", "replace") != want_keys:
+                bad.append("%s: key path `%s`, expected `%s`" % (r, got.decode("utf-8", "replace"), want_keys))
         else:
             if rf.get("span") != "none":
                 # a span without text cannot be rendered; it must then still be the right one
@@ -496,6 +505,15 @@ def gen_deerr(rng, tier):
         for v in WRONG["int"]:
             for text, lk, ks in layouts(rng, [b"t", b"b"], v):
                 add("nested", add_sibling(text), lk, ks, "nested")
+        # target types whose ROOT is a newtype struct / an Option / a map (Deserializer::deserialize_newtype_struct, _option,
+        # _any in de/mod.rs each attach the source text on their own)
+        for v in WRONG["int"]:
+            for text, lk, ks in layouts(rng, [b"a"], v):
+                add("rootnew", text, lk, ks, "root-newtype")
+                add("rootopt", text, lk, ks, "root-option")
+                add("rootmap", b"z = 1\n" + text, lk, ks, "root-map")
+            for text, lk, ks in layouts(rng, [b"t", b"b"], v):
+                add("rootnewnested", add_sibling(text), lk, ks, "root-newtype-nested")
         # Vec<i64> fed a mixed array: the offending element's span; key path is the array's
         for arr, idx in [(b'[1, "x", 3]', 1), (b'["x"]', 0), (b"[1, 2, 3.5]", 2), (b"[\n 1, # c\n true ]", 1), (b"[1, [2]]", 1),
                          ("[1, 'é', 3]".encode(), 1)]:
